@@ -234,3 +234,94 @@ def of(repo):
     _cache.clear()
     _cache[id(repo)] = Canon(repo)
   return _cache[id(repo)]
+
+
+def hoist_walrus_repo(repo):
+  """In place:  if (n := E) > 0: ...   ->   n = E; if n > 0: ...     (assignment expressions in the test of an `if`,
+  the value of an assignment / return / expression statement; not under the right operand of `and`/`or`, a conditional
+  expression, a lambda or a comprehension, where the evaluation is conditional or repeated; `while` tests stay).
+  Returns the number of assignment expressions hoisted."""
+  count = [0]
+
+  def collect(e, out):
+    """NamedExpr nodes of e that are evaluated exactly once whenever e is evaluated, in evaluation order."""
+    if isinstance(e, (ast.Lambda, ast.GeneratorExp, ast.ListComp, ast.SetComp, ast.DictComp)):
+      return
+    if isinstance(e, ast.BoolOp):
+      collect(e.values[0], out)
+      return
+    if isinstance(e, ast.IfExp):
+      collect(e.test, out)
+      return
+    if isinstance(e, ast.NamedExpr):
+      collect(e.value, out)
+      out.append(e)
+      return
+    for ch in ast.iter_child_nodes(e):
+      collect(ch, out)
+
+  def replace(root, targets):
+    ids = {id(t): t for t in targets}
+
+    def sub(x):
+      if id(x) in ids:
+        return ast.copy_location(ast.Name(id=ids[id(x)].target.id, ctx=ast.Load()), x)
+      for fld, val in list(ast.iter_fields(x)):
+        if isinstance(val, ast.AST):
+          setattr(x, fld, sub(val))
+        elif isinstance(val, list):
+          setattr(x, fld, [sub(v) if isinstance(v, ast.AST) else v for v in val])
+      return x
+    return sub(root)
+
+  def block(stmts):
+    out = []
+    for st in stmts:
+      if isinstance(st, (ast.FunctionDef, ast.AsyncFunctionDef, ast.ClassDef)):
+        for fld in ('body',):
+          setattr(st, fld, block(getattr(st, fld)))
+        out.append(st)
+        continue
+      for fld in ('body', 'orelse', 'finalbody'):
+        if hasattr(st, fld) and isinstance(getattr(st, fld), list):
+          setattr(st, fld, block(getattr(st, fld)))
+      if isinstance(st, ast.Try):
+        for hd in st.handlers:
+          hd.body = block(hd.body)
+      slot = None
+      if isinstance(st, ast.If):
+        slot = 'test'
+      elif isinstance(st, (ast.Assign, ast.AugAssign, ast.AnnAssign, ast.Return, ast.Expr)) and getattr(st, 'value', None) is not None:
+        slot = 'value'
+      if slot is not None:
+        found = []
+        collect(getattr(st, slot), found)
+        found = [w for w in found if isinstance(w.target, ast.Name)]
+        if found:
+          for w in found:
+            a = ast.Assign(targets=[ast.Name(id=w.target.id, ctx=ast.Store())], value=w.value)
+            ast.copy_location(a, w)
+            ast.fix_missing_locations(a)
+            a.end_lineno = getattr(w, 'end_lineno', a.lineno)
+            out.append(a)
+          # inner walruses were moved with their enclosing value; replace the outermost occurrences in the statement
+          setattr(st, slot, replace(getattr(st, slot), found))
+          # a hoisted value may itself contain a hoisted inner walrus: replace there too
+          for a in out[-len(found) - 0:]:
+            if isinstance(a, ast.Assign):
+              a.value = replace(a.value, [w for w in found if w.value is not a.value])
+          count[0] += len(found)
+          if isinstance(st, ast.Expr) and isinstance(st.value, ast.Name):
+            continue          # `(n := E)` alone as a statement: the assignment is all there was
+      out.append(st)
+    return out
+
+  for m in repo.modules.values():
+    before = count[0]
+    m.tree.body = block(m.tree.body)
+    if count[0] != before:
+      ast.fix_missing_locations(m.tree)
+      for n_ in ast.walk(m.tree):
+        for ch in ast.iter_child_nodes(n_):
+          ch._parent = n_
+  return count[0]
